@@ -423,6 +423,9 @@ impl<'e> Evaluator<'e> {
 
         let res = self.partial_interpret_internal(expr, slots);
 
+        #[cfg(feature = "verif-hooks")]
+        crate::verif_hooks::on_eval(expr, &res);
+
         // set the returned value's source location to the same source location
         // as the input expression had.
         // we do this here so that we don't have to set/propagate the source
